@@ -8,12 +8,12 @@ R(n) == <<"$", "E", "N", "V", "{">> \o n \o <<"}">>
 \* whole references are single tokens so that interesting inputs are short
 TokensDef == { R(<<"A">>), R(<<"B">>), R(<<"U">>), R(<<"~">>), R(<<"A", ".", "b">>), <<"$", "E", "N", "V", "{">>, <<"$">>, <<"{">>, <<"}">>,
                <<"A">>, <<".">>, <<"~">>, <<"/", "x">>, <<"1">>, <<"-">> }
-\* values: contain "{", "}", the text ENV{B}, a slash, non-ASCII, or are empty - but never "$"
-SetVarsDef == (<<"A">> :> <<"E", "N", "V", "{", "B", "}">>) @@ (<<"B">> :> <<"x">>) @@ (<<"~">> :> <<"d", "/", "^">>)
+\* values: contain "{", "}", the index placeholder "{}", the text ENV{B}, a slash, non-ASCII, or are empty - but never "$"
+SetVarsDef == (<<"A">> :> <<"E", "N", "V", "{", "B", "}">>) @@ (<<"B">> :> <<"x">>) @@ (<<"~">> :> <<"d", "{", "}", "/", "^">>)
               @@ (<<"A", ".", "b">> :> <<>>)
 StartDef == {"A", "B", "U", "_", "~", "1", "b"}
 PartDef == StartDef \cup {"."}
 Emit == Done => PrintT(<<"REPLAY", ToJson([input |-> Str(Input), expect |-> Str(out)])>>)
 MetaInit == Init /\ PrintT(<<"REPLAY", ToJson([meta |-> "env", vars |-> [k \in {"A", "B", "~", "A.b"} |->
-                 CASE k = "A" -> "ENV{B}" [] k = "B" -> "x" [] k = "~" -> "d/^" [] OTHER -> ""], unset |-> <<"U", "1", "1A", "A.", "AA">>])>>)
+                 CASE k = "A" -> "ENV{B}" [] k = "B" -> "x" [] k = "~" -> "d{}/^" [] OTHER -> ""], unset |-> <<"U", "1", "1A", "A.", "AA">>])>>)
 =============================================================================
